@@ -186,23 +186,29 @@ class CaseTimeout(Exception):
 
 
 class time_limit:
-    """Per-case watchdog (SIGALRM): implementation code that loops forever becomes an exception."""
+    """Per-case watchdog: implementation code that loops forever becomes an exception.  The limit is on the CPU time of
+    this process (SIGPROF), so that a loaded machine does not turn a slow case into an alarm; a case that merely waits
+    (a dead-locked pool) is caught by a wall-clock limit ten times as long (SIGALRM)."""
 
     def __init__(self, seconds):
         self.seconds = seconds
 
     def _handler(self, signum, frame):
-        raise CaseTimeout(f"no result within {self.seconds}s")
+        raise CaseTimeout(f"no result within {self.seconds}s of CPU time / {10 * self.seconds}s of wall time")
 
     def __enter__(self):
         import signal
         self._old = signal.signal(signal.SIGALRM, self._handler)
-        signal.setitimer(signal.ITIMER_REAL, self.seconds)
+        self._oldp = signal.signal(signal.SIGPROF, self._handler)
+        signal.setitimer(signal.ITIMER_REAL, 10 * self.seconds)
+        signal.setitimer(signal.ITIMER_PROF, self.seconds)
 
     def __exit__(self, *a):
         import signal
+        signal.setitimer(signal.ITIMER_PROF, 0)
         signal.setitimer(signal.ITIMER_REAL, 0)
         signal.signal(signal.SIGALRM, self._old)
+        signal.signal(signal.SIGPROF, self._oldp)
         return False
 
 
